@@ -155,7 +155,7 @@ func (g *G) mutatePattern(p string, useIc bool) string {
 	return g.pattern(useIc)
 }
 
-var malformed = []string{"/{a{b}x", "/{a{}}y", "{abc{d}/x", "{abc{ee}/y", "", "{}", "/{}", "/{:\\d+}", "/{a}{b}", "/{id}/{id}", "/{id}/{-id}", "/{id:[0-9}", "/{id:(}", "/{id:*}", "/}{", "/{", "/}", "/{a", "/a}", "/{a:}", "/{a}:", "/{-}", "/{-:x}", "/{id-x:\\d+}", "/{a}}/{b}", "/{{a}", "/:{a}", "{a}{b}{c}", "/{a:\\d+}{b}", "/{a}/{b}/{c}/{d}/{a}", "/{a}/{b}/{c}/{d}/{e}/{b}", "/{a}/{b}/{c}/{d}/{-d}", "/{a}/{b}/{c}/{d}/{e}/{f}/{g}/{h}/{i}/{a}"}
+var malformed = []string{"/{a{b}x", "/{a{}}y", "{abc{d}/x", "{abc{ee}/y", "", "{}", "/{}", "/{:\\d+}", "/{a}{b}", "/{id}/{id}", "/{id}/{-id}", "/{id:[0-9}", "/{id:(}", "/{id:*}", "/}{", "/{", "/}", "/{a", "/a}", "/{a:}", "/{a}:", "/{-}", "/{-:x}", "/{id-x:\\d+}", "/{a}}/{b}", "/{{a}", "/:{a}", "{a}{b}{c}", "/{a:\\d+}{b}", "{:}", "/posts/{:}", "/{:}.html", "/posts/{:}/author", "/{a}/{b}/{c}/{d}/{a}", "/{a}/{b}/{c}/{d}/{e}/{b}", "/{a}/{b}/{c}/{d}/{-d}", "/{a}/{b}/{c}/{d}/{e}/{f}/{g}/{h}/{i}/{a}"}
 
 // ---- paths ---------------------------------------------------------------------------------
 
@@ -503,6 +503,18 @@ func streamDispatch(g *G) { // C01
 	for !g.full() {
 		g.history(rid, histCfg{useIc: g.chance(0.5), trace: g.chance(0.2), probes: 6, urlProbes: true, siblings: g.chance(0.3), oddRequest: 0.05}, 6+g.intn(20))
 		rid++
+		if g.chance(0.25) {
+			// an IGNORED regexp parameter whose rule is a top-level alternation, followed by literal text: the alternation ends
+			// where the parameter ends, whether or not the value is captured
+			g.routerLine(rid, routerOpt{name: "alt"})
+			for i, p := range []string{"/k/{-kind:cat|dog}/owner", "/k/{-c:a|ab}/log", "/j/{kind:cat|dog}/owner", "/k/{rest}"} {
+				g.emit("handle %d %s %d %%- %s", rid, encB(p), i+1, encL([]string{"GET"}))
+			}
+			for _, path := range []string{"/k/cat", "/k/cat/owner", "/k/dog/owner", "/k/a", "/k/ab/log", "/k/a/log", "/j/cat", "/j/dog/owner", "/k/catx"} {
+				g.serveLine("serve", rid, "GET", path, "", nil)
+			}
+			rid++
+		}
 		if g.chance(0.3) { // a refusing interceptor in front of literal text that occurs several times in the path
 			fam := overlapFamilies[g.intn(len(overlapFamilies))]
 			g.routerLine(rid, routerOpt{name: "ov", icpt: icptTable})
@@ -1538,6 +1550,15 @@ func streamCors(g *G) { // C11, C12
 						h := []kv{{"Origin", "https://a.example"}, {"Access-Control-Request-Method", acrm}}
 						if g.chance(0.3) {
 							h = append(h, kv{"Access-Control-Request-Headers", "Content-Type"})
+						} else if len(o.allowH) > 0 && o.allowH[0] != "*" && g.chance(0.4) {
+							// names that are FRAGMENTS of a configured name (or of the joined list), lists with empty items
+							name := o.allowH[g.intn(len(o.allowH))]
+							frag := name
+							if len(name) > 3 {
+								a := g.intn(len(name) - 2)
+								frag = name[a : a+2+g.intn(len(name)-a-1)]
+							}
+							h = append(h, kv{"Access-Control-Request-Headers", g.pick([]string{frag, strings.ToLower(frag), name + ",", "," + name, name + ", " + frag, strings.ToLower(name)})})
 						}
 						g.serveLine("serve", rid, "OPTIONS", path, "", h)
 					}
